@@ -41,11 +41,10 @@ def build(case, labels=None):
         kw["roots"] = case["roots"]
     if case["allow_empty"]:
         kw["allow_empty_group"] = True
-    if case.get("intflags"):  # options given as 1 / 0 instead of True / False
+    if case.get("intflags"):  # options given as 1 / 0 instead of True / False (the encoding is chosen by the config flag here)
         kw["allow_empty_group"] = int(case["allow_empty"])
-        kw["use_graph_primitive"] = int(bool(case["prim"]))
     form = case["form"]
-    with gcheck.GraphConfig(use_graph_primitive=bool(case["prim"])):
+    with gcheck.GraphConfig(use_graph_primitive=int(bool(case["prim"])) if case.get("intflags") else bool(case["prim"])):
         if form == "grid":
             h, w = case["shape"]
             d = s.int_array((h, w), 0, R - 1)
@@ -193,7 +192,11 @@ def roots_menu(n, R, full, long=False):
     if long:
         out.append([None] * R + [n - 1])
         out.append([None] * (R + 1))
-    return out
+    dedup = []
+    for r in out:
+        if r not in dedup:
+            dedup.append(r)
+    return dedup
 
 
 def cases_for(tier):
@@ -209,7 +212,7 @@ def cases_for(tier):
                     continue
                 if n == 4 and R == 4 and len(edges) < 3:
                     continue
-                for roots in roots_menu(n, R, full=(n <= 3 and R <= 2), long=(n <= 3 or (n == 4 and R == 2))):
+                for roots in roots_menu(n, R, full=(n <= 3 and R <= 2), long=(n <= 3 or (n == 4 and R == 2 and tier != "quick"))):
                     if tier == "quick" and n == 4 and R == 3 and roots is not None:
                         continue
                     for allow_empty in (False, True):
@@ -250,6 +253,8 @@ def cases_for(tier):
                     for k, doms in enumerate(doms_menu(n, R)):
                         if tier == "quick" and n == 4 and k == 2:
                             continue
+                        if tier == "quick" and n == 4 and prim != (k == 1):
+                            continue
                         for allow_empty in ((False, True) if n <= 3 else (False,)):
                             out.append({"form": "subdomain", "n": n, "edges": list(edges), "R": R, "roots": None, "allow_empty": allow_empty, "prim": prim, "doms": doms, "as_array": k == 1})
                     if n <= 3 or len(edges) == 3:
@@ -258,6 +263,8 @@ def cases_for(tier):
         n = h * w
         for k, doms in enumerate(doms_menu(n, 3)[:2]):
             for prim in (False, True):
+                if tier == "quick" and n == 6 and (k, prim) != ((0, False) if h == 2 else (1, True)):
+                    continue
                 out.append({"form": "subdomain", "n": n, "edges": graphref.grid_edges(h, w), "R": 3, "roots": None, "allow_empty": False, "prim": prim, "doms": doms})
     # structured mid-sized graphs (cycles sharing a vertex, degree-4 trees, isolated vertices, cubic graphs), all R^n labelings
     for name, n, es in graphref.zoo():
@@ -354,7 +361,8 @@ def main(tier, seed, only=None):
     )
     run.assumptions = ["encoding + cspuz z3 backend under test; native route via R-native (mc/native_backend.py)", "labels range over 0..num_regions-1 (the property's premise)"]
     shards = gcheck.split_shards(cases, size_of, 250)
-    par.run_shards(run, worker, shards, seed)
+    first, rest = gcheck.heavy_first(shards, _CASES)
+    par.run_shards(run, worker, rest, seed, first=first)
     cov = {
         "evaluations": run.c("evaluations"),
         "distinct_nontrivial": sum(g[2] ** g[0] for g in run.total.sets.get("graphs", ())),
